@@ -334,6 +334,9 @@ type Decoder struct {
 	Trace bool
 	// MaxItems guards the reference decoder itself against absurd counts.
 	MaxItems int64
+	// Canonical also rejects varints that are not in shortest form (something
+	// no conformant writer produces, though a lenient reader may accept it).
+	Canonical bool
 	depth    int
 }
 
@@ -347,6 +350,9 @@ func (d *Decoder) long(kind string) (int64, error) {
 	v, n, err := ReadLong(d.Buf[d.Pos:])
 	if err != nil {
 		return 0, err
+	}
+	if d.Canonical && n != len(AppendLong(nil, v)) {
+		return 0, fmt.Errorf("ref: varint for %d is not in shortest form", v)
 	}
 	start := d.Pos
 	d.Pos += n
